@@ -564,7 +564,8 @@ impl Gen<'_> {
     fn totals(cs: &[Coin]) -> BTreeMap<String, u128> {
         let mut t = BTreeMap::new();
         for c in cs {
-            *t.entry(c.denom.clone()).or_insert(0u128) += c.amount.u128();
+            let e = t.entry(c.denom.clone()).or_insert(0u128);
+            *e = e.saturating_add(c.amount.u128());
         }
         t
     }
@@ -584,7 +585,8 @@ impl Gen<'_> {
             return false;
         }
         for (d, x) in t {
-            *led[a].entry(d).or_insert(0) += x;
+            let e = led[a].entry(d).or_insert(0);
+            *e = e.saturating_add(x);
         }
         true
     }
